@@ -17,5 +17,5 @@ import json; d=json.load(open('$f')); print('  KEY', d.get('key'), '|', str(d.ge
 cp /tmp/seedtry_$id.ev.bak evidence/$id.json 2>/dev/null
 rm -f replay/$id-*.json
 h=$(python3 -c "import hashlib;print(hashlib.sha1('$wt'.encode()).hexdigest()[:8])")
-rm -rf /verif/.cache/target-$h
+rm -rf /verif/.cache/target-$h /verif/.cache/harness-target-$h /verif/.cache/cgb-target-target-$h /verif/.cache/sgb-target-target-$h
 git -C /repo worktree remove --force "$wt"
